@@ -98,12 +98,115 @@ def readable(fs, path):
         return None, "bad-utf8"
 
 
+def rename_first(envs):
+    """Ids renamed by order of first appearance within one source's envelopes (any allocation pattern
+    of the running counter is tolerated; references must still be consistent)."""
+    seen = {}
+
+    def ref(v):
+        key = canon_id(v)
+        if key not in seen:
+            seen[key] = len(seen)
+        return ["N", seen[key]]
+
+    def walk(o):
+        if isinstance(o, dict):
+            r = {}
+            for k, v in o.items():
+                if k in ("id", "astNodeId"):
+                    r[k] = ref(v)
+                elif k == "astNodeIds" and isinstance(v, list):
+                    r[k] = [ref(x) for x in v]
+                else:
+                    r[k] = walk(v)
+            return r
+        if isinstance(o, (list, tuple)):
+            return [walk(x) for x in o]
+        return o
+
+    return walk(envs)
+
+
+def canon_id(v):
+    return engine.canon(v)
+
+
+def run_stream_zip(ts, op):
+    """ONE GherkinEvents instance, the generators of several sources created up front and advanced in a
+    seeded interleaved order (a consumer that zips / round-robins the per-source generators)."""
+    from gherkin.stream.source_events import SourceEvents
+    ctx, k = ts.ctx, ts.run.kernel
+    ge = ts.streams[op["s"]]
+    paths = list(op["paths"])
+    order = list(op["consumer"].get("order") or [])
+    it = iter(SourceEvents(paths).enum())
+    d_op = len(ctx.draws)
+    sources, gens = [], []
+    for path in paths:
+        s = {"path": path, "live": [], "snap": [], "status": "ok", "d0": len(ctx.draws), "data": None}
+        sources.append(s)
+        try:
+            se = next(it)
+        except StopIteration:
+            s["status"] = "missing"
+            gens.append(None)
+            continue
+        except (OSError, UnicodeError) as e:
+            s["status"], s["error"] = "unreadable", [type(e).__name__, str(e)]
+            gens.append(None)
+            continue
+        except (SimCancelled, SimKilled):
+            raise
+        except Exception as e:  # noqa: BLE001
+            s["status"], s["error"] = "foreign-source", [type(e).__name__, str(e)]
+            gens.append(None)
+            continue
+        try:
+            s["data"] = se["source"]["data"]
+        except Exception:  # noqa: BLE001
+            pass
+        gens.append(iter(ge.enum(se)))
+    live = [i for i, g in enumerate(gens) if g is not None]
+    pos = 0
+    while live:
+        want = order[pos] if pos < len(order) else pos
+        pos += 1
+        i = live[want % len(live)]
+        s = sources[i]
+        try:
+            ev = next(gens[i])
+        except StopIteration:
+            live.remove(i)
+            continue
+        except (SimCancelled, SimKilled):
+            ctx.obs = None
+            raise
+        except Exception as e:  # noqa: BLE001
+            s["status"], s["error"] = "foreign", [type(e).__name__, str(e)]
+            live.remove(i)
+            continue
+        s["live"].append(ev)
+        s["snap"].append(copy.deepcopy(ev))
+        if k is not None:
+            k.yield_point("env")
+    ctx.obs = None
+    norm = []
+    for s in sources:
+        s["d1"] = len(ctx.draws)
+        s["norm"] = rename_first(s["snap"])
+        norm.append([s["path"], s["status"], s.get("error"), s["norm"]])
+    return {"op": "stream", "kind": "stream", "sources": sources, "raw": [s["live"] for s in sources], "snap": [s["snap"] for s in sources],
+            "norm": norm, "draws": ctx.draws[d_op:], "reads": 0, "toks": 0, "dirty": [], "abandoned": False, "zip": True}
+
+
 def run_stream(ts, op):
     from gherkin.stream.source_events import SourceEvents
     ctx, k = ts.ctx, ts.run.kernel
     ge = ts.streams[op["s"]]
     paths = list(op["paths"])
     cons = op.get("consumer") or {"k": "drain"}
+    if cons.get("k") == "zip":
+        return run_stream_zip(ts, op)
     budget = cons.get("n") if cons["k"] == "take" else None
     it = iter(SourceEvents(paths).enum())
     d_op = len(ctx.draws)
